@@ -158,6 +158,10 @@ impl Engine {
         Some(b.saturating_sub(a) <= 1)
     }
 
+    pub fn pid(&self) -> u32 {
+        self.child.id()
+    }
+
     pub fn now_us(&self) -> u64 {
         self.t0.elapsed().as_micros() as u64
     }
